@@ -337,6 +337,25 @@ pub enum Ev {
     /// Marks the start of the n-th `solve` call on a reused solver.
     SolveStart(usize),
     SolveEnd(usize),
+    /// The cancellation signal was raised (sticky) while the provider handled the callback event
+    /// with this index (`Cancel::RaisedAt`).
+    Raised(usize),
+}
+
+impl Ev {
+    pub fn kind(&self) -> &'static str {
+        match self {
+            Ev::CandCall(_) => "get_candidates",
+            Ev::CandRet(_) => "get_candidates(return)",
+            Ev::DepsCall(_) => "get_dependencies",
+            Ev::DepsRet(_) => "get_dependencies(return)",
+            Ev::Filter(..) | Ev::FilterRet(..) => "filter_candidates",
+            Ev::Sort(_) | Ev::SortRet(_) => "sort_candidates",
+            Ev::CancelPoll(..) => "poll",
+            Ev::SolveEnd(_) => "the end of solve",
+            _ => "other",
+        }
+    }
 }
 
 /// Payload of the panic that is raised when a logical step budget is exhausted.
@@ -356,6 +375,10 @@ pub enum Cancel {
     Sticky(usize),
     /// fire at poll index k only
     Transient(usize),
+    /// the application raises the signal (for good) at the moment the provider logs its j-th
+    /// callback event (call and return events of all four callbacks are counted together): every
+    /// poll from then on answers `Some`
+    RaisedAt(usize),
 }
 
 pub struct Prov {
@@ -377,6 +400,17 @@ pub struct Prov {
     /// queries once and abandons them when they are not ready (a timeout / select! in real code)
     pub abandon: Cell<bool>,
     pub abandoned: Cell<u64>,
+    /// callback events (calls and returns) seen so far; whether `Cancel::RaisedAt` has been raised
+    pub cb_events: Cell<usize>,
+    pub raised: Cell<bool>,
+    /// if set, `sort_candidates` is not a pure function of its input: candidates whose
+    /// dependencies the cache can already provide at that moment are preferred (then rank)
+    pub stateful_sort: Cell<bool>,
+    /// H3: value of the repository's propagation-round counter at the last provider event, number
+    /// of rounds observed, and what the round monitor objected to
+    pub last_round: Cell<u64>,
+    pub rounds_seen: Cell<u64>,
+    pub round_faults: RefCell<Vec<String>>,
 }
 
 /// Logs that a provider call was dropped before it was answered.
@@ -409,6 +443,12 @@ impl Prov {
             reentrant_queries: Cell::new(0),
             abandon: Cell::new(false),
             abandoned: Cell::new(0),
+            cb_events: Cell::new(0),
+            raised: Cell::new(false),
+            stateful_sort: Cell::new(false),
+            last_round: Cell::new(resolvo::verif::verif_propagation_rounds()),
+            rounds_seen: Cell::new(0),
+            round_faults: Default::default(),
         }
     }
     pub fn with_sched(u: Rc<Universe>, sched: Rc<Sched>) -> Self {
@@ -426,8 +466,43 @@ impl Prov {
             std::panic::panic_any(BudgetExceeded);
         }
     }
+    /// H3 (trace specification of the documented poll point "at the beginning of each unit
+    /// propagation round"): whenever the round counter of the repository has moved since the last
+    /// provider event, it has moved by exactly one and the event that sees the new value is a poll
+    /// of the cancellation signal.
+    fn round_monitor(&self, e: &Ev) {
+        let now = resolvo::verif::verif_propagation_rounds();
+        let last = self.last_round.replace(now);
+        if matches!(e, Ev::SolveStart(_)) || now == last {
+            return;
+        }
+        self.rounds_seen.set(self.rounds_seen.get() + (now - last));
+        let fault = if !matches!(e, Ev::CancelPoll(..)) {
+            Some(format!("a propagation round began and the next provider event is not a poll but {}", e.kind()))
+        } else if now - last > 1 {
+            Some("a propagation round passed without a poll".to_string())
+        } else {
+            None
+        };
+        if let Some(f) = fault {
+            let mut v = self.round_faults.borrow_mut();
+            if v.len() < 4 {
+                v.push(f);
+            }
+        }
+    }
     pub fn log(&self, e: Ev) {
+        self.round_monitor(&e);
+        let cb = matches!(e, Ev::CandCall(_) | Ev::CandRet(_) | Ev::DepsCall(_) | Ev::DepsRet(_) | Ev::Filter(..) | Ev::FilterRet(..) | Ev::Sort(_) | Ev::SortRet(_));
         self.sched.log.borrow_mut().push(e);
+        if cb {
+            let c = self.cb_events.get();
+            self.cb_events.set(c + 1);
+            if self.cancel.get() == Cancel::RaisedAt(c) && !self.raised.get() {
+                self.raised.set(true);
+                self.sched.log.borrow_mut().push(Ev::Raised(c));
+            }
+        }
     }
     pub fn take_log(&self) -> Vec<Ev> {
         self.sched.log.borrow().clone()
@@ -540,7 +615,11 @@ impl DependencyProvider for Prov {
         if self.reentrant_sort.get() {
             crate::monitors::c20::reentrant_queries(self, solver, solvables).await;
         }
-        solvables.sort_by_key(|s| self.u.solvs[s.0 as usize].rank);
+        if self.stateful_sort.get() {
+            solvables.sort_by_key(|s| (!solver.are_dependencies_available_for(*s), self.u.solvs[s.0 as usize].rank));
+        } else {
+            solvables.sort_by_key(|s| self.u.solvs[s.0 as usize].rank);
+        }
         self.log(Ev::SortRet(solvables.iter().map(|s| s.0).collect()));
     }
 
@@ -568,6 +647,7 @@ impl DependencyProvider for Prov {
             Cancel::Never => false,
             Cancel::Sticky(c) => k >= c,
             Cancel::Transient(c) => k == c,
+            Cancel::RaisedAt(_) => self.raised.get(),
         };
         self.log(Ev::CancelPoll(k, fire));
         if fire { Some(Box::new(k)) } else { None }
